@@ -805,6 +805,7 @@ fn handle_job(job: &J) -> J {
         "eval_up_to" => ext::job_eval_up_to(job),
         "fix" => ext::job_fix(job),
         "types" => ext::job_types(job),
+        "combine_types" => ext::job_combine_types(job),
         "lsp" => ext::job_lsp(job),
         "lsp_conv" => ext::job_lsp_conv(job),
         "lsp_points" => ext::job_lsp_points(job),
